@@ -71,7 +71,7 @@ def load_known():
 # ----------------------------------------------------------------------------------------------
 # reflective-checker properties (C08, C07, C05): shared flow
 # ----------------------------------------------------------------------------------------------
-def reflective(prop, tier, seed, oracle_module, level_note, extra_obligations=None, ncorr=None, oracle_args=None, gprops=True, seq_obligations=None, theorems=None, theory_obligations=None, gprops_from=None, pre_cmds=None):
+def reflective(prop, tier, seed, oracle_module, level_note, extra_obligations=None, ncorr=None, oracle_args=None, gprops=True, seq_obligations=None, theorems=None, theory_obligations=None, gprops_from=None, pre_cmds=None, extra_harness=None):
     t0 = time.time()
     problems = []       # broken obligations / correspondences (strings)
     with coqbuild.Lock():
@@ -118,6 +118,9 @@ def reflective(prop, tier, seed, oracle_module, level_note, extra_obligations=No
             ores.append(r)
             obl.append(f)
         gate = coqbuild.grep_gate()
+        chk = None
+        if tier == 'thorough' and all(r['ok'] for r in ores):
+            chk = coqbuild.coqchk([r['file'] for r in ores])
     if gate:
         problems.append('forbidden vernacular: ' + '; '.join(gate))
     axioms, failed, discharged = set(), [], 0
@@ -133,12 +136,19 @@ def reflective(prop, tier, seed, oracle_module, level_note, extra_obligations=No
     bad_ax = axioms - coqbuild.ALLOWED_AXIOMS
     if bad_ax:
         problems.append('unexpected axioms: ' + ', '.join(sorted(bad_ax)))
+    coqchk_info = None
+    if chk is not None:
+        ok_c, ax_c, tail_c, secs_c = chk
+        lib_ax = sorted(a for a in ax_c)
+        coqchk_info = dict(ok=ok_c, seconds=round(secs_c, 1), axioms_of_all_loaded_libraries=lib_ax)
+        if not ok_c:
+            problems.append('coqchk rejects the compiled obligations: ' + tail_c[-600:])
     report = {}
     rp = os.path.join(COQ, 'gprops', prop + '_report.json')
     if os.path.exists(rp):
         report = json.load(open(rp))
     # translator validation + prediction correspondence
-    n = ncorr or (6 if tier == 'quick' else 40)
+    n = (ncorr if tier == 'quick' and ncorr else None) or (6 if tier == 'quick' else 300)
     oargs = oracle_args or []
     corr = harness(oracle_module, oargs + ['--mode', 'check', '--seed', str(seed), '--n', str(n), '--tier', tier])
     if 'error' in corr:
@@ -146,6 +156,18 @@ def reflective(prop, tier, seed, oracle_module, level_note, extra_obligations=No
     else:
         for m in corr.get('mismatches', []):
             problems.append('correspondence: ' + m)
+    ties = {}
+    for (tmod, targs) in (extra_harness or []):
+        tr = harness(tmod, targs + ['--mode', 'check', '--seed', str(seed), '--n', str(n), '--tier', tier])
+        if 'error' in tr:
+            problems.append('correspondence harness %s: %s' % (tmod, tr['error']))
+        else:
+            for m in tr.get('mismatches', []):
+                problems.append('correspondence (%s): %s' % (tmod, m))
+            if isinstance(corr, dict) and 'error' not in corr:
+                corr.setdefault('violations', []).extend(tr.get('violations', []))
+                corr['programs_validated'] = corr.get('programs_validated', 0) + tr.get('programs_validated', 0)
+            ties[tmod] = dict((k, tr.get(k)) for k in ('configs', 'programs_validated', 'bindings_compared', 'max_rel_err', 'distribution', 'predictions_checked', 'summary'))
     known = [k for k in load_known()['findings'] if k['property'] == prop]
     known_hits = []
     viol = corr.get('violations', []) if isinstance(corr, dict) else []
@@ -162,11 +184,12 @@ def reflective(prop, tier, seed, oracle_module, level_note, extra_obligations=No
         obligations=len(ores), discharged=discharged, theorems=theorems or [],
         checker_cmd='tools/check.py %s --tier %s  (gen.py -> mkprops.py -> coqc of coq/gprops/%s_*.v against coq/theories)' % (prop, tier, prop),
         trusted_base=TRUSTED_BASE + [level_note],
-        axioms=sorted(axioms), primitive_float_operations=sorted(prims), programs=len(man.get('programs', {})),
+        axioms=sorted(axioms), primitive_float_operations=sorted(prims), coqchk=coqchk_info, programs=len(man.get('programs', {})),
         model_nodes=sum(v['nodes'] for v in man.get('programs', {}).values()),
         per_program=report,
         traces_validated_against_impl=corr.get('programs_validated', 0) if isinstance(corr, dict) else 0,
         correspondence=dict((k, corr.get(k)) for k in ('configs', 'programs_validated', 'bindings_compared', 'max_rel_err', 'distribution', 'predictions_checked') if isinstance(corr, dict)),
+        model_ties=ties,
         samples=(corr.get('samples', []) if isinstance(corr, dict) else [])[:3] + [{'obligation': o} for o in obl[:3]],
     )
     wall = time.time() - t0
@@ -268,10 +291,13 @@ def check_C20(tier, seed):
                       'the implementation on every generated size): antisymmetric; for odd n circulant, zero row sums, commutes with cyclic shifts and '
                       'anticommutes with reversal (even n: the same under the stated condition that the Nyquist entry 1/tan(pi/2) is exactly 0). '
                       'Newton control laws as in C02. fourier_minimum bracket logic and interpolation-weight identities in theories/Bracket.v. '
-                      'NOT proved (harness only): exact differentiation of every resolvable mode, exactness of the interpolant away from the '
-                      'nodes, Newton convergence on smooth well-posed systems.',
-                      gprops=False, seq_obligations=[], theory_obligations=['Newton', 'DiffMat', 'Bracket'],
-                      theorems=['DiffMat.DR_antisym', 'DiffMat.DR_circulant', 'DiffMat.DR_rowsum', 'DiffMat.DR_shift', 'DiffMat.DR_rev',
+                      'Exact differentiation (theories/DiffKernel.v, odd n -- the only parity Qsc uses): with topc the exact cosecants the matrix entry is s/2 (-1)^d / sin(pi d/n), it is the derivative of the '
+                      'Dirichlet kernel, and applied to cos(p x_j), sin(p x_j) for every p <= n/2 (hence to every trigonometric polynomial of that degree) it returns the exact derivative at the nodes; '
+                      'the matrices of the nfp = k and nfp = 1 declarations replicate (Dspec_replicates, odd k). '
+                      'NOT proved (harness only): exactness of the interpolant away from the nodes, Newton convergence on smooth well-posed systems; floats are idealised as reals in the exactness statements.',
+                      gprops=False, seq_obligations=[], theory_obligations=['Newton', 'DiffMat', 'Bracket', 'TrigSum', 'DiffKernel'],
+                      theorems=['DiffKernel.Dspec_entry', 'DiffKernel.Dspec_kernel', 'DiffKernel.Dspec_exact_cos', 'DiffKernel.Dspec_exact_sin', 'DiffKernel.Dspec_exact_trigpoly', 'DiffKernel.trigpoly_derive',
+                                'DiffKernel.Dspec_replicates', 'DiffMat.DR_antisym', 'DiffMat.DR_circulant', 'DiffMat.DR_rowsum', 'DiffMat.DR_shift', 'DiffMat.DR_rev',
                                 'Newton.never_worse_than_initial', 'Newton.accepted_chain_decreasing', 'Newton.no_warning_means_best_small'])
 
 
@@ -392,9 +418,10 @@ def check_C06(tier, seed):
                       'Proved by the reflective Replicate checker (theories/Replicate.v, sound for every base grid n, every replication factor k >= 1 and every input) on every covered output '
                       '(tables/rep_cover.json) of every translated physics stage: re-declaring nfp -> nfp/k on a k times longer grid replicates every profile k times, multiplies grid sums and helicity by k '
                       'and leaves iota, iotaN = iota + helicity*nfp and all scale lengths / Mercier / tensor quantities unchanged; the residual equations of the sigma and O(r^2) solves are preserved. '
-                      'PREMISE (not proved): the differentiation matrix of the long grid applied to a replicated profile is the replication of the short-grid derivative (cosecant partial-fraction identity; '
-                      'checked numerically by the harness for n <= 201, k odd), and fourier_minimum sees the same interpolant. Not covered: quantities built from phi / varphi (untwisted coefficients on helical axes, '
+                      'The premise on the differentiation matrices (long-grid matrix applied to a replicated profile = replication of the short-grid derivative) is PROVED for the spectral matrix with exact cosecants, '
+                      'odd n and odd k (theories/DiffKernel.v: Dspec_replicates, C06_checked, via the Dirichlet-kernel form of the matrix and discrete orthogonality). Remaining premise: fourier_minimum sees the same interpolant. Not covered: quantities built from phi / varphi (untwisted coefficients on helical axes, '
                       'Cartesian components, B_mag at a given angle), the sigma pin, iota2; k even (grids do not coincide); Newton uniqueness.',
+                      theory_obligations=['Replicate', 'DiffKernel'], theorems=['Replicate.rep_check_sound', 'DiffKernel.Dspec_replicates', 'DiffKernel.C06_checked'],
                       ncorr=(5 if tier == 'quick' else 20))
 
 
@@ -405,17 +432,28 @@ def check_C14(tier, seed):
                       'at a poloidal angle by Frenet_to_cylindrical and by to_RZ are the prescribed r, r^2, r^3 harmonics of the untwisted coefficients and coincide. With the oracle premise "root_scalar returns a zero of the residual" '
                       'this is the clause "each returned (R,Z) is the position at phi0 whose own cylindrical angle is the target". Harness only: the 1e-12 / 1e-5 / nphi^-3 accuracy clauses, the to_Fourier round trip '
                       '(props/C14_fourier.v when present), agreement with the shipped Fortran files.',
-                      gprops=False, seq_obligations=['props/C14.v'],
-                      theorems=['C14_point_r1', 'C14_point_r2', 'C14_point_R_r1', 'C14_point_R_r2', 'C14_residual_r1', 'C14_residual_r2',
+                      gprops=False, seq_obligations=['props/C14.v', 'props/C14_fourier.v', 'props/C14_weights.v'], theory_obligations=['TrigSum'],
+                      extra_harness=[('tie_fourier', [])],
+                      theorems=['C14_fourier.roundtrip_2d', 'C14_fourier.roundtrip_R_lasym', 'C14_fourier.roundtrip_Z_lasym', 'C14_fourier.roundtrip_R_sym', 'C14_fourier.roundtrip_Z_sym',
+                                'C14_fourier.overresolved_mpol_fails', 'C14_weights.coefC_weight', 'C14_weights.coefS_weight', 'TrigSum.dirichlet_diff', 'C14_point_r1', 'C14_point_r2', 'C14_point_R_r1', 'C14_point_R_r2', 'C14_residual_r1', 'C14_residual_r2',
                                 'C14_series_F_r1', 'C14_series_F_r2', 'C14_series_F_r3', 'C14_series_T_r1', 'C14_series_T_r2', 'C14_series_T_r3'])
 
 
 def check_C15(tier, seed):
     return reflective('C15', tier, seed, 'oracle_C15',
                       'Proved on the program regenerated from the scalar part of to_vmec: PHIEDGE = pi r^2 B0 (given spsi^2 = 1, Bbar from init_axis), CURTOR = 2 pi I2 r^2/mu0, AM = [-p2 r^2, p2 r^2] i.e. p(s) = -p2 r^2 (1-s). '
+                      'Boundary section (theories/VmecEmit.v, a model of the mode-line loop on an abstract scalar with a zero test, evaluated inside Coq on zero patterns and compared with the real file every run; props/C15_file.v): '
+                      'a namelist reader recovers every in-range RBC/ZBS entry (zeros come back as zeros), with lasym=False no RBS/ZBC line exists, every written index lies in 0..mpol, -ntor..ntor, and with the default ranges '
+                      '(mpol = ntheta/2, ntor = nphi/2, proved to be the defaults up to 201 points) the read-back coefficients summed with cos/sin(m theta - n nfp phi) reproduce the transformed surface on its grid -- '
+                      'for symmetric surfaces unconditionally, for non-symmetric ones under the stated guard (a mode with RBC = ZBS = 0 but RBS or ZBC nonzero is NOT written: model witness unguarded_asym_entry_lost; not reachable from generic float data). '
+                      'NTOR header = min(ntor, ntorMax) equals ntor iff ntor <= ntorMax. '
                       'Everything else is translation-validation level: the written file is parsed back with an independent namelist reader and compared with the object and the surface on every run '
                       '(NFP, LASYM, MPOL, NTOR cap, mode lines with VMEC\'s m*theta - n*nfp*phi convention, axis arrays to 8 digits, coefficient arrays left on the object, no state leaking through the mutable default argument).',
-                      gprops=False, seq_obligations=['props/C15.v'], theorems=['C15_phiedge', 'C15_curtor', 'C15_pressure'])
+                      gprops=False, seq_obligations=['props/C15.v', 'props/C14_fourier.v', 'props/C15_file.v'], theory_obligations=['VmecEmit', 'TrigSum'],
+                      extra_harness=[('tie_vmec', []), ('tie_fourier', [])],
+                      theorems=['C15_phiedge', 'C15_curtor', 'C15_pressure', 'C15_file.C15_file_surface_sym', 'C15_file.C15_file_surface_asym', 'C15_file.C15_file_ranges',
+                                'C15_file.C15_default_ranges', 'C15_file.C15_ntor_header', 'VmecEmit.read_RBC', 'VmecEmit.read_ZBS', 'VmecEmit.read_RBS', 'VmecEmit.read_ZBC',
+                                'VmecEmit.read_sym_no_asym', 'VmecEmit.emit_in_range', 'VmecEmit.unguarded_asym_entry_lost'])
 
 
 def check_C18(tier, seed):
@@ -431,8 +469,8 @@ def check_C18(tier, seed):
 # hand-written theories each check depends on (others are not built, so work in progress elsewhere cannot disturb it)
 NEEDS = {
     'C08': ['Expr', 'Equiv', 'Dim'], 'C07': ['Expr', 'Equiv', 'Sign', 'Shift', 'Shallow', 'DiffMat'], 'C05': ['Expr', 'Equiv', 'Sign', 'Shift', 'Shallow', 'DiffMat'],
-    'C04': ['Expr', 'Shallow'], 'C11': ['Expr', 'Shallow'], 'C13': ['Expr', 'Shallow', 'Quadrant'], 'C19': ['Expr', 'Equiv', 'Dim', 'Sign'], 'C17': ['Expr', 'Effects'], 'C12': ['Expr', 'Equiv', 'Dim', 'Sign', 'Shallow', 'RootSelect'], 'C16': ['Expr', 'Effects', 'ObjModel'], 'C09': ['Expr', 'Shallow', 'Pipeline'], 'C03': ['Expr', 'Shallow', 'Pipeline'], 'C06': ['Expr', 'Equiv', 'Replicate'], 'C14': ['Expr', 'Shallow'], 'C15': ['Expr', 'Shallow'], 'C18': ['Expr', 'ObjModel'], 'C10': ['Expr', 'Shallow'], 'C01': ['Expr', 'Shallow', 'Series'], 'C02': ['Expr', 'Shallow', 'Newton'],
-    'C20': ['Expr', 'Equiv', 'Sign', 'Shift', 'DiffMat', 'Newton', 'Bracket'],
+    'C04': ['Expr', 'Shallow'], 'C11': ['Expr', 'Shallow'], 'C13': ['Expr', 'Shallow', 'Quadrant'], 'C19': ['Expr', 'Equiv', 'Dim', 'Sign'], 'C17': ['Expr', 'Effects'], 'C12': ['Expr', 'Equiv', 'Dim', 'Sign', 'Shallow', 'RootSelect'], 'C16': ['Expr', 'Effects', 'ObjModel'], 'C09': ['Expr', 'Shallow', 'Pipeline'], 'C03': ['Expr', 'Shallow', 'Pipeline'], 'C06': ['Expr', 'Equiv', 'Sign', 'Shift', 'Replicate', 'DiffMat', 'TrigSum', 'DiffKernel'], 'C14': ['Expr', 'Shallow', 'TrigSum'], 'C15': ['Expr', 'Shallow', 'TrigSum', 'VmecEmit'], 'C18': ['Expr', 'ObjModel'], 'C10': ['Expr', 'Shallow'], 'C01': ['Expr', 'Shallow', 'Series'], 'C02': ['Expr', 'Shallow', 'Newton'],
+    'C20': ['Expr', 'Equiv', 'Sign', 'Shift', 'Replicate', 'DiffMat', 'Newton', 'Bracket', 'TrigSum', 'DiffKernel'],
 }
 CHECKS = {'C06': check_C06, 'C14': check_C14, 'C15': check_C15, 'C18': check_C18, 'C12': check_C12, 'C16': check_C16, 'C17': check_C17, 'C03': check_C03, 'C19': check_C19, 'C09': check_C09, 'C13': check_C13, 'C11': check_C11, 'C02': check_C02, 'C20': check_C20, 'C04': check_C04, 'C08': check_C08, 'C07': check_C07, 'C05': check_C05}
 
